@@ -165,7 +165,11 @@ namespace
     }
 
     // ------------------------------------------------------------------ navigation for writes (TSDataView domain)
-    TSDataView descend_write(TSDataView cur, const Shape &root, const std::vector<std::int64_t> &path, DateTime now)
+    struct KeyAbsent {};
+    // direct = true: a dictionary level is crossed by LOOKING the element up (TSDDataView::at, no
+    // structural operation, no mutation scope on the dictionary); an absent key throws KeyAbsent.
+    TSDataView descend_write(TSDataView cur, const Shape &root, const std::vector<std::int64_t> &path, DateTime now,
+                             bool direct = false)
     {
         const Shape *s = &root;
         for (std::size_t i = 0; i < path.size(); ++i)
@@ -179,10 +183,20 @@ namespace
             else if (s->kind == 3)
             {
                 Value      key{path[i]};
-                auto       mutation = cur.as_dict().begin_mutation(now);
-                TSDataView next     = mutation.at(key.view());
-                s                   = &s->child(0);
-                cur                 = std::move(next);
+                TSDataView next;
+                if (direct)
+                {
+                    auto dict = cur.as_dict();
+                    if (!dict.contains(key.view())) { throw KeyAbsent{}; }
+                    next = dict.at(key.view());
+                }
+                else
+                {
+                    auto mutation = cur.as_dict().begin_mutation(now);
+                    next          = mutation.at(key.view());
+                }
+                s   = &s->child(0);
+                cur = std::move(next);
             }
             else { throw std::invalid_argument("path through a leaf"); }
         }
@@ -211,6 +225,18 @@ namespace
                 auto       mutation = d.as_dict().begin_mutation(now);
                 (void)mutation.at(key.view());
                 ctx.out->line({23, us(now), 4, 1});
+                return;
+            }
+            if (w.op == 6)
+            {   // write a leaf through the element's own view: dictionaries on the way are only looked up
+                try
+                {
+                    TSDataView target = descend_write(out.data_view().borrowed_ref(), *ctx.shape, w.path, now, true);
+                    auto       m      = target.begin_mutation(now);
+                    const bool first  = m.move_value_from(Value{w.args.at(0)});
+                    ctx.out->line({23, us(now), 6, first});
+                }
+                catch (const KeyAbsent &) { ctx.out->line({29, us(now), 6, 4}); }
                 return;
             }
             TSDataView target = descend_write(out.data_view().borrowed_ref(), *ctx.shape, w.path, now);
@@ -318,6 +344,37 @@ namespace
             for (auto x : path) { kl.push_back(x); }
             for (auto k : keys) { kl.push_back(k); }
             out.line(kl);
+            {   // the keys the dictionary itself reports modified in this cycle
+                std::vector<std::int64_t> mk;
+                for (const auto k : dv2.modified_keys()) { mk.push_back(k.template checked_as<std::int64_t>()); }
+                std::sort(mk.begin(), mk.end());
+                Line ml{22, who, now, (std::int64_t)path.size()};
+                for (auto x : path) { ml.push_back(x); }
+                for (auto k : mk) { ml.push_back(k); }
+                out.line(ml);
+                // ... and the keys of the "modified" map of its per-tick delta (when a delta is readable)
+                Line dl{31, who, now, (std::int64_t)path.size()};
+                for (auto x : path) { dl.push_back(x); }
+                const bool typed_delta = has && d.schema() == s.meta->delta_value_schema;
+                dl.push_back(typed_delta);
+                if (typed_delta)
+                {
+                    std::vector<std::int64_t> dk;
+                    auto                      bundle   = d.as_bundle();
+                    auto                      modified = bundle.at(1);
+                    if (modified.has_value())
+                    {
+                        for (const auto [key, value] : modified.as_map().items())
+                        {
+                            static_cast<void>(value);
+                            dk.push_back(key.template checked_as<std::int64_t>());
+                        }
+                    }
+                    std::sort(dk.begin(), dk.end());
+                    for (auto k : dk) { dl.push_back(k); }
+                }
+                out.line(dl);
+            }
             for (auto k : keys)
             {
                 Value key{k};
